@@ -178,6 +178,19 @@ CHECKS = {
         BASE_NOTE + 'Provider/config plumbing for priorities is exercised by the correspondence only.',
         'DESIGN.md section 5 C09',
     ),
+    'C14': (
+        'Rocq proof over the factorisation / hint-registration model (induction over predicates with SQL three-valued row semantics, refutation witnesses) + differential correspondence with the real alchemy parser and hint-honouring execution on sqlite',
+        'PARTIAL. Proved for every predicate, table and row environment: each factor offered for a table is a necessary '
+        'condition of the predicate it was derived from (and/or/not merging, NULL semantics) and mentions that table only; the '
+        'offered filter (disjunction of the factors of the where-clause and of the registered join conditions) admits the '
+        'table\'s row of every row combination satisfying those clauses - the contributing rows of inner-join statements; the '
+        'offered column set covers every column used by projection, filters, grouping and ordering. Refuted on the faithful '
+        'model (known findings): columns of an equality ON-condition are not offered; ON-factors of an outer join are offered '
+        'for the preserved side. Statements with references and sub-queries are outside the model and judged by the '
+        'hint-honouring execution only (two more known findings there). Aggregation is not evaluated by the model.',
+        BASE_NOTE + 'sqlite evaluates the offered predicates and the statements; a hint-honouring back-end is emulated by cutting the table data to the offered columns / admitted rows.',
+        'DESIGN.md section 5 C14',
+    ),
     'C07': (
         'Rocq proof characterising the mirrored construction-time validation rule by rule + differential correspondence on conforming statements and single-rule mutants',
         'Theorems (Properties/C07.v) for every statement: a query / join / set is constructible iff the documented rules hold '
